@@ -123,6 +123,9 @@ func Materialize(base string, fs map[string]Entry) error {
 		switch e.Kind {
 		case "file", "other":
 			b := e.Raw
+			if b == nil && e.Kind == "other" {
+				b = []byte("not a layer file\n")
+			}
 			if b == nil {
 				var err error
 				b, err = Encode(Ext(p), e.Docs)
